@@ -1,4 +1,5 @@
 import AvroModel.Props.C07
+import AvroModel.Lemmas.Crash
 /-!
 # C08 — A truncated file yields a prefix of its records and an error
 
@@ -92,10 +93,10 @@ theorem length_mem_boundaries (sync : Bytes) : ∀ (bl : List (Blk α)) (off : N
   | nil => intro off; simp [body, boundaries]
   | cons b bl ih =>
     intro off
-    have := ih (off + (frame sync b).length)
+    have := ih (off + (File.frame sync b).length)
     simp only [boundaries, List.mem_cons]
     right
-    have e : off + (body sync (b :: bl)).length = off + (frame sync b).length + (body sync bl).length := by
+    have e : off + (body sync (b :: bl)).length = off + (File.frame sync b).length + (body sync bl).length := by
       simp [body]; omega
     rw [e]; exact this
 
@@ -137,5 +138,82 @@ open Avro.C07 in
 example : boundaries exSync exHdr.length [exB1, exB2] = [52, 72, 92] ∧
     completeVals exSync exHdr.length [exB1, exB2] 75 = [1, 2] ∧
     completeVals exSync exHdr.length [exB1, exB2] 76 = [1, 2, 3] := by decide +kernel
+
+/-! ### The file a writer wrote, truncated
+
+The theorems above are about any valid file. `EndToEnd.written_valid` says that what the encoder
+model writes for a call history *is* a valid file, so they apply to it with no hypothesis about bytes. -/
+
+open Avro.Crash Avro.EndToEnd in
+/-- **C08 for written files**: for every `Encode`/`Flush` history `ops` (ended by a `Flush` or not — if
+not, the records still pending are simply not in the file), under the hypotheses of
+`EndToEnd.write_then_read` (the writer's header is one the reader accepts, the reader's decompressor
+undoes the compressor, payload sizes are representable, `rc.decode` decodes every record encoding
+exactly to `dec r`), reading the first `k` bytes of what the fault-free writer wrote
+
+* delivers exactly the records of the emitted blocks whose payload is completely within the first `k`
+  bytes (`completeVals` over `writtenBlocks cfg dec ops`, the blocks of the reference partition
+  `(specPart cfg.blockSize ops []).1` in the reader's vocabulary),
+* which is a prefix of the records of the history, `(encodings ops).map dec` — whole records, in
+  order, none altered —,
+* succeeds iff `k` is the end of the header or of an emitted block, and
+* is an error (not a panic, not a hang) at every other `k`. -/
+theorem written_file_truncation (cfg : EncCfg) (ops : List EncOp)
+    {X : Ext α} {fuel : Nat} {H : Header} {sel : CodecSel} {rc : RecCodec α}
+    (hh : ValidHeader X fuel cfg.header H sel rc) (hs : H.sync = cfg.sync)
+    (hcomp : ∀ x, decompress X sel (cfg.compress x) = .ok x)
+    (hsmall : ∀ blk ∈ (specPart cfg.blockSize ops []).1, (cfg.compress blk.flatten).length ≤ maxLen)
+    (dec : Bytes → α) (hdec : ∀ r ∈ encodings ops, ∀ rest, rc.decode (r ++ rest) = .ok (dec r, rest))
+    (hn : (encodings ops).length < fuel) (hn63 : (encodings ops).length < 2 ^ 63)
+    (cb : Nat → Option ε) (hcb : ∀ i, cb i = none)
+    (k : Nat) (hk : k ≤ (encRun cfg {} ops).2.1.accepted.length) :
+    (readFile X fuel cb ((encRun cfg {} ops).2.1.accepted.take k)).delivered =
+        completeVals cfg.sync cfg.header.length (writtenBlocks cfg dec ops) k ∧
+    (readFile X fuel cb ((encRun cfg {} ops).2.1.accepted.take k)).delivered <+: (encodings ops).map dec ∧
+    ((readFile X fuel cb ((encRun cfg {} ops).2.1.accepted.take k)).res = .ok ↔
+        k ∈ boundaries cfg.sync cfg.header.length (writtenBlocks cfg dec ops)) ∧
+    (k ∉ boundaries cfg.sync cfg.header.length (writtenBlocks cfg dec ops) →
+        ∃ e, (readFile X fuel cb ((encRun cfg {} ops).2.1.accepted.take k)).res = .err e) := by
+  have hv : ValidFile X fuel cfg.header H sel rc (writtenBlocks cfg dec ops) :=
+    written_valid cfg ops hh hcomp hsmall dec hdec hn hn63
+  rw [written_bytes cfg dec ops] at hk ⊢
+  rw [← hs] at hk ⊢
+  refine ⟨(truncation hv cb hcb k hk).1, ?_, ok_iff_boundary hv cb hcb k hk, (truncation hv cb hcb k hk).2.2⟩
+  exact List.IsPrefix.trans (truncation_prefix hv cb hcb k hk) (allVals_written_prefix cfg dec ops)
+
+/-! Non-vacuity: a concrete history that does **not** end with a `Flush` (record `[4]` stays pending):
+blocks `[[1]]` and `[[2], [3]]`, block size 2, codec null, the header of `Props/C07.lean`.
+The file is 91 bytes: header 52, block one ends at 71 (payload at 55), block two at 91 (payload at 75). -/
+
+def exCfgW : EncCfg := { blockSize := 2, compress := id, sync := C07.exSync, header := C07.exHdr }
+def exOpsW : List EncOp := [.encode [1], .flush, .encode [2], .encode [3], .encode [4]]
+def exDecW : Bytes → UInt8 := fun r => r.headD 0
+def exRcW : RecCodec UInt8 := { decode := fun bs => match bs with | [] => .err | b :: r => .ok (b, r) }
+
+theorem exHdrW_valid : ValidHeader C07.exX 9 exCfgW.header
+    { «meta» := metaOf [Crash.writerMeta [0x22] vNull], sync := C07.exSync } .null exRcW :=
+  Crash.valid_writerHeader C07.exX [0x22] vNull C07.exSync 9 (by decide) (by decide) (by decide) .null exRcW
+    (Or.inl ⟨rfl, rfl⟩) rfl
+
+/-- the hypotheses of `written_file_truncation` are met by that history, for every cut position -/
+example (k : Nat) (hk : k ≤ (encRun exCfgW {} exOpsW).2.1.accepted.length) :
+    (readFile C07.exX 9 (fun _ => (none : Option Unit)) ((encRun exCfgW {} exOpsW).2.1.accepted.take k)).delivered <+: [1, 2, 3, 4] := by
+  have := (written_file_truncation exCfgW exOpsW exHdrW_valid rfl (fun x => rfl) (by decide) exDecW
+    (by intro r hr rest; simp [exOpsW, encodings] at hr; rcases hr with rfl | rfl | rfl | rfl <;> rfl)
+    (by decide) (by decide) (fun _ => (none : Option Unit)) (fun _ => rfl) k hk).2.1
+  simpa [exOpsW, encodings, exDecW] using this
+
+/-- and its conclusion, evaluated by the two models: positions, what each cut delivers, the result -/
+example : (encRun exCfgW {} exOpsW).2.1.accepted.length = 91 ∧
+    boundaries exCfgW.sync exCfgW.header.length (Crash.writtenBlocks exCfgW exDecW exOpsW) = [52, 71, 91] ∧
+    completeVals exCfgW.sync exCfgW.header.length (Crash.writtenBlocks exCfgW exDecW exOpsW) 74 = [1] ∧
+    completeVals exCfgW.sync exCfgW.header.length (Crash.writtenBlocks exCfgW exDecW exOpsW) 75 = [1, 2, 3] := by
+  decide +kernel
+
+example : readFile C07.exX 9 (fun _ => (none : Option Unit)) ((encRun exCfgW {} exOpsW).2.1.accepted.take 71) = ⟨[1], .ok⟩ ∧
+    readFile C07.exX 9 (fun _ => (none : Option Unit)) ((encRun exCfgW {} exOpsW).2.1.accepted.take 74) = ⟨[1], .err .payload⟩ ∧
+    readFile C07.exX 9 (fun _ => (none : Option Unit)) ((encRun exCfgW {} exOpsW).2.1.accepted.take 75) = ⟨[1, 2, 3], .err .syncRead⟩ ∧
+    readFile C07.exX 9 (fun _ => (none : Option Unit)) ((encRun exCfgW {} exOpsW).2.1.accepted.take 91) = ⟨[1, 2, 3], .ok⟩ := by
+  decide +kernel
 
 end Avro.C08
